@@ -42,7 +42,10 @@ MANIFEST = {
             'history. Distinct schedules and histories are counted. Sampling '
             'of interleavings, not enumeration.'
             ' Every job body also asks the controller about itself (is_ru'
-            'nning(name), has_jobs()) at its first and last statement.',
+            'nning(name), has_jobs()) at its first and last statement.'
+            ' A polling client reads has_jobs() 2-40 times in 30 % of the'
+            ' scenarios (never False between the hand-over of a queued jo'
+            'b and its end); job names carry blanks at either end.',
     'note': 'Trusted: scheduler shims (Thread, RLock, Event), the sequential '
             'model. The 1 s lock time-out of JobControl never fires while the '
             'owner can run; bytecode-level switches inside one statement are '
